@@ -1,0 +1,24 @@
+//go:build verif
+
+// Hand-written contracts of the ECDSA key generation package (routing / acceptance /
+// update contracts are generated: zz_contracts_proto_verif.go).
+
+package keygen
+
+//@ define wfPre(pp) = (pp.PaillierSK != nil && pp.NTildei != nil && pp.H1i != nil && pp.H2i != nil)
+//@ define wfPreProof(pp) = (wfPre(pp) && pp.PaillierSK.P != nil && pp.PaillierSK.Q != nil && pp.Alpha != nil && pp.Beta != nil && pp.P != nil && pp.Q != nil)
+
+// sizes and signs of honestly generated pre-parameters (2048-bit moduli from 1024-bit safe primes)
+//@ define honestPre(pp) = (pp.PaillierSK.PublicKey.N != nil && val(pp.P) > 0 && val(pp.Q) > 0 && val(pp.NTildei) > 0 && val(pp.H1i) >= 0 && val(pp.H2i) >= 0 && val(pp.Alpha) >= 0 && val(pp.Beta) >= 0 && bitlen(val(pp.P)) <= 2100 && bitlen(val(pp.Q)) <= 2100)
+//@ func (LocalPreParams).Validate
+//@   props C06 C19
+//@   ensures result <==> wfPre(preParams)
+//@ func (LocalPreParams).ValidateWithProof
+//@   props C06 C19
+//@   ensures result <==> wfPreProof(preParams)
+
+//@ func GeneratePreParams
+//@   trusted safe-prime and Paillier key generation (goroutines, context, timeouts): outside the generator subset
+//@   props C06 C19
+//@   ensures result1 != nil ==> result0 == nil
+//@   ensures result1 == nil ==> (result0 != nil && fresh(result0) && wfPreProof(result0) && honestPre(result0))
